@@ -1,6 +1,12 @@
 ---------------------------- MODULE NtsCookiesMC ----------------------------
 (***************************************************************************)
 (* Model-checking wrapper of NtsCookies.                                   *)
+(*  _exhnet/_deepnet : the same without foreign requests but with the      *)
+(*                     network's memory (MaxOld earlier replies that may   *)
+(*                     be handed to the waiting client: Replay / Stray);   *)
+(*                     _exh / _deep have MaxOld = 0 (the two dimensions do *)
+(*                     not interact: foreign requests touch neither the    *)
+(*                     client's pool nor the remembered replies)           *)
 (*  _exh / _deep     : the repaired design (placeholders typed, MaxPacket- *)
 (*                     Len that holds eight of the project's cookies,      *)
 (*                     replies capped) - the whole property section holds  *)
@@ -17,12 +23,12 @@
 EXTENDS NtsCookies, Json
 TicksExh   == {2, 6}
 TicksDeep  == {1, 2, 3, 6}
-ProbesExh  == {8, 9, 11}
+ProbesExh  == {8, 11}
 ProbesFaithful == {7}
-ProbesDeep == {7, 8, 12}
+ProbesDeep == {8, 12}
 NoProbes   == {}
-UidsExh    == {32, 200, 400}
-UidsDeep   == {32, 200, 320, 400}
+UidsExh    == {200, 400}
+UidsDeep   == {200, 400}
 UidsOwn    == {32}
 \* size facts the text of the property relies on (evaluated once by TLC)
 ASSUME ReqSize(PoolMax) = NtpLen + UidField + CookieField + AuthField(0)
